@@ -22,6 +22,8 @@
 #include <time.h>
 #include <unistd.h>
 
+extern void __sanitizer_symbolize_pc(void *pc, const char *fmt, char *out_buf, size_t out_buf_size);
+
 const char *__asan_default_options(void)
 {
 	return "detect_leaks=0:allocator_may_return_null=1:exitcode=1:abort_on_error=0:handle_abort=1:symbolize=1:"
@@ -63,9 +65,9 @@ static void cor_prepare(const struct ccase *c)
 		g_cor_bytes = h_malloc(2);
 		memcpy(g_cor_bytes, c->cbytes, 2);
 	} else {
-		g_cor_len = g_base_len[c->level][c->cmsg];
+		g_cor_len = g_base_len[c->ccfg][c->cmsg];
 		g_cor_bytes = h_malloc(g_cor_len);
-		memcpy(g_cor_bytes, g_base[c->level][c->cmsg], g_cor_len);
+		memcpy(g_cor_bytes, g_base[c->ccfg][c->cmsg], g_cor_len);
 		g_cor_bytes[c->cpos] = c->cval;
 	}
 }
@@ -271,7 +273,7 @@ struct vrec {
 	uint32_t idx;
 	char cls[96], key[256], msg[480];
 };
-#define VLOG_CAP 8192
+#define VLOG_CAP 65536
 struct shared {
 	volatile uint32_t nv;    /* violations appended (may exceed VLOG_CAP) */
 	struct vrec v[VLOG_CAP];
@@ -361,9 +363,11 @@ static void slugify(char *dst, size_t cap, const char *s, int maxwords)
 	while (o && dst[o - 1] == '-') o--;
 	dst[o] = 0;
 }
+static char g_where[240];
 static void parse_san(const char *txt, const char *srcroot, char *errtype, size_t ecap, char *func, size_t fcap, char *summary, size_t scap)
 {
 	errtype[0] = func[0] = summary[0] = 0;
+	g_where[0] = 0;
 	const char *p = strstr(txt, "ERROR: AddressSanitizer: ");
 	const char *u = strstr(txt, "runtime error: ");
 	if (p && (!u || p < u)) {
@@ -400,6 +404,8 @@ static void parse_san(const char *txt, const char *srcroot, char *errtype, size_
 		if (memmem(file, ll, "c19_", 4)) continue;
 		if (memmem(file, ll, srcroot, strlen(srcroot))) {
 			snprintf(func, fcap, "%s", fn);
+			while (ll && *file == ' ') file++, ll--;
+			snprintf(g_where, sizeof(g_where), "%s %.*s", fn, (int)(ll > 150 ? 150 : ll), file);
 			break;
 		}
 	}
@@ -418,7 +424,10 @@ static void parse_san(const char *txt, const char *srcroot, char *errtype, size_
 	}
 }
 
-static const char *g_srcroot = "/src/";
+#ifndef C19_SRCROOT
+#define C19_SRCROOT "/repo/src/"
+#endif
+static const char *g_srcroot = C19_SRCROOT;
 
 static void crash_key(const struct ccase *c, const struct progress *pg, int status, const char *errtxt, char *cls, size_t ccap, char *key, size_t kcap, char *msg, size_t mcap)
 {
@@ -438,22 +447,22 @@ static void crash_key(const struct ccase *c, const struct progress *pg, int stat
 	switch (c->sec) {
 	case SEC_NEG:
 		offer_slug(slug, sizeof(slug), g_offers[c->offer]);
-		snprintf(det, sizeof(det), "%s/L%d/%s", pg->phase, c->level, slug);
+		snprintf(det, sizeof(det), "%s/%s", pg->phase, slug);
 		break;
 	case SEC_C2S:
 		frag_str(fs, sizeof(fs), c);
-		snprintf(det, sizeof(det), "payload=%s/frag=%s/msg=%d/L%d:c%dn%ds%dn%d", pl_name[c->payload], fs, pg->msg, c->level, c->cb, c->cn, c->sb, c->sn);
+		snprintf(det, sizeof(det), "payload=%s/frag=%s/msg=%d", pl_name[c->payload], fs, pg->msg);
 		break;
 	case SEC_S2C:
-		snprintf(det, sizeof(det), "payload=%s/msg=%d/L%d:c%dn%ds%dn%d", pl_name[c->payload], pg->msg, c->level, c->cb, c->cn, c->sb, c->sn);
+		snprintf(det, sizeof(det), "payload=%s/msg=%d", pl_name[c->payload], pg->msg);
 		break;
 	default:
 		cor_kind(kind, sizeof(kind), c);
-		snprintf(det, sizeof(det), "%s/L%d/%s", pg->phase, c->level, kind);
+		snprintf(det, sizeof(det), "%s/%s", pg->phase, kind);
 		break;
 	}
 	snprintf(key, kcap, "%s/%s", cls, det);
-	snprintf(msg, mcap, "process died in phase '%s' (message %d): %s", pg->phase, pg->msg, sum[0] ? sum : et);
+	snprintf(msg, mcap, "level %d, offer '%s' (c%dn%ds%dn%d): process died in phase '%s' (message %d): %s%s%s", c->level, g_offers[c->offer], c->cb, c->cn, c->sb, c->sn, pg->phase, pg->msg, sum[0] ? sum : et, g_where[0] ? "; first module frame: " : "", g_where);
 }
 
 static char *read_fd_all(int fd)
@@ -468,107 +477,107 @@ static char *read_fd_all(int fd)
 	return b;
 }
 
-struct job {
-	pid_t pid;
-	size_t lo, hi;
-	int fd;
+struct phase_ctl {
+	volatile uint64_t next, done;
+	volatile int deadline_hit;
 };
-struct range {
-	size_t lo, hi;
-};
+static struct phase_ctl *g_ctl;
 
-/* runs cases [from,to) on g_jobs workers; returns 1 when all were run */
-static int run_phase(size_t from, size_t to, size_t chunk)
+/* one of g_jobs supervisors: grabs chunks, runs each in a forked worker, attributes a dying worker to the
+ * case it was executing and restarts behind it (forking is the bottleneck when many cases crash, so it is
+ * spread over the supervisors) */
+static void supervisor(int slot, size_t to, size_t chunk)
 {
-	struct job *jobs = h_malloc(sizeof(*jobs) * (size_t)g_jobs);
-	for (int i = 0; i < g_jobs; i++) jobs[i].pid = 0;
-	struct range *pend = NULL;
-	size_t npend = 0, pcap = 0;
-	size_t next = from;
-	int active = 0, complete = 1;
 	for (;;) {
-		int stop = g_deadline_at > 0 && now_s() > g_deadline_at;
-		if (stop) g_deadline_hit = 1;
-		while (!stop && active < g_jobs && (npend || next < to)) {
-			struct range r;
-			if (npend) {
-				r = pend[--npend];
-			} else {
-				r.lo = next;
-				r.hi = next + chunk < to ? next + chunk : to;
-				next = r.hi;
-			}
-			int s = 0;
-			while (jobs[s].pid) s++;
+		if (g_deadline_at > 0 && now_s() > g_deadline_at) {
+			g_ctl->deadline_hit = 1;
+			break;
+		}
+		size_t lo = (size_t)__sync_fetch_and_add(&g_ctl->next, (uint64_t)chunk);
+		if (lo >= to) break;
+		size_t hi = lo + chunk < to ? lo + chunk : to;
+		while (lo < hi) {
 			int fd = memfd_create("c19-stderr", 0);
 			if (fd < 0) {
 				perror("memfd_create");
-				exit(2);
+				_exit(2);
 			}
-			g_slots[s].cur = (uint32_t)r.lo;
-			g_slots[s].msg = 0;
-			g_slots[s].phase[0] = 0;
-			fflush(NULL);
+			g_slots[slot].cur = (uint32_t)lo;
+			g_slots[slot].msg = 0;
+			g_slots[slot].phase[0] = 0;
 			pid_t pid = fork();
 			if (pid < 0) {
 				perror("fork");
-				exit(2);
+				_exit(2);
 			}
 			if (pid == 0) {
 				dup2(fd, 2);
 				close(fd);
-				child_range(s, r.lo, r.hi);
+				child_range(slot, lo, hi);
 				_exit(0);
 			}
-			jobs[s].pid = pid;
-			jobs[s].lo = r.lo;
-			jobs[s].hi = r.hi;
-			jobs[s].fd = fd;
-			active++;
+			int st;
+			while (waitpid(pid, &st, 0) < 0)
+				if (errno != EINTR) {
+					perror("waitpid");
+					_exit(2);
+				}
+			if (WIFEXITED(st) && WEXITSTATUS(st) == 0) {
+				__sync_fetch_and_add(&g_ctl->done, (uint64_t)(hi - lo));
+				lo = hi;
+			} else if (WIFEXITED(st) && WEXITSTATUS(st) == 2) {
+				char *e = read_fd_all(fd);
+				fprintf(stderr, "c19: worker reported a harness error at case %u: %s\n", g_slots[slot].cur, e);
+				_exit(2);
+			} else {
+				size_t cur = g_slots[slot].cur;
+				char *e = read_fd_all(fd);
+				char cls[200], key[400], msg[600];
+				crash_key(&g_cases[cur], &g_slots[slot], st, e, cls, sizeof(cls), key, sizeof(key), msg, sizeof(msg));
+				h_free(e);
+				log_violation((uint32_t)cur, cls, key, msg);
+				g_res[cur].st = 3;
+				__sync_fetch_and_add(&g_ctl->done, (uint64_t)(cur + 1 - lo));
+				lo = cur + 1;
+			}
+			close(fd);
 		}
-		if (!active) break;
-		int st;
-		pid_t pid = waitpid(-1, &st, 0);
-		if (pid < 0) {
-			if (errno == EINTR) continue;
-			perror("waitpid");
+	}
+}
+
+/* runs cases [from,to) with g_jobs supervisors; returns 1 when all were run */
+static int run_phase(size_t from, size_t to, size_t chunk)
+{
+	g_ctl->next = from;
+	g_ctl->done = 0;
+	fflush(NULL);
+	pid_t *pids = h_malloc(sizeof(pid_t) * (size_t)g_jobs);
+	for (int s = 0; s < g_jobs; s++) {
+		pids[s] = fork();
+		if (pids[s] < 0) {
+			perror("fork");
 			exit(2);
 		}
-		int s = -1;
-		for (int i = 0; i < g_jobs; i++)
-			if (jobs[i].pid == pid) s = i;
-		if (s < 0) continue;
-		if (!(WIFEXITED(st) && WEXITSTATUS(st) == 0)) {
-			if (WIFEXITED(st) && WEXITSTATUS(st) == 2) {
-				char *e = read_fd_all(jobs[s].fd);
-				fprintf(stderr, "c19: worker reported a harness error at case %u: %s\n", g_slots[s].cur, e);
+		if (pids[s] == 0) {
+			supervisor(s, to, chunk);
+			_exit(0);
+		}
+	}
+	for (int s = 0; s < g_jobs; s++) {
+		int st;
+		while (waitpid(pids[s], &st, 0) < 0)
+			if (errno != EINTR) {
+				perror("waitpid");
 				exit(2);
 			}
-			size_t cur = g_slots[s].cur;
-			char *e = read_fd_all(jobs[s].fd);
-			char cls[200], key[400], msg[600];
-			crash_key(&g_cases[cur], &g_slots[s], st, e, cls, sizeof(cls), key, sizeof(key), msg, sizeof(msg));
-			h_free(e);
-			log_violation((uint32_t)cur, cls, key, msg);
-			g_res[cur].st = 3;
-			if (cur + 1 < jobs[s].hi) {
-				if (npend == pcap) {
-					pcap = pcap ? pcap * 2 : 64;
-					pend = h_realloc(pend, pcap * sizeof(*pend));
-				}
-				pend[npend].lo = cur + 1;
-				pend[npend].hi = jobs[s].hi;
-				npend++;
-			}
+		if (!(WIFEXITED(st) && WEXITSTATUS(st) == 0)) {
+			fprintf(stderr, "c19: supervisor %d failed (status 0x%x)\n", s, st);
+			exit(2);
 		}
-		close(jobs[s].fd);
-		jobs[s].pid = 0;
-		active--;
 	}
-	if (npend || next < to) complete = 0;
-	h_free(pend);
-	h_free(jobs);
-	return complete;
+	h_free(pids);
+	if (g_ctl->deadline_hit) g_deadline_hit = 1;
+	return g_ctl->done == (uint64_t)(to - from);
 }
 
 /* re-run one case in a fresh child; returns its key ("" = held) */
@@ -716,32 +725,39 @@ static void build_rt_cases(size_t *c2s_from, size_t *c2s_to, size_t *s2c_from, s
 	*s2c_to = g_ncases;
 }
 
-static uint32_t g_plain_offer;
+static const struct {
+	int level, cb, cn, sb, sn;
+	const char *offer;
+} cor_cfg[3] = {
+    {2, 15, 0, 12, 0, "permessage-deflate"},                           /* inflate with Z_SYNC_FLUSH, window 15 */
+    {1, 15, 1, 9, 1, "permessage-deflate"},                            /* client_no_context_takeover: inflate with Z_FINISH */
+    {3, 8, 0, 15, 0, "permessage-deflate; client_max_window_bits=8"},  /* 256 byte inflate window */
+};
 static void build_cor_cases(size_t *from, size_t *to)
 {
 	*from = g_ncases;
-	g_plain_offer = add_offer("permessage-deflate");
-	int levels[2] = {2, 1};
-	int nl = g_thorough ? 2 : 1;
-	/* base messages: what a client with the negotiated parameters (window 15) sends first */
-	static const int base_msgs[3] = {4, 3, 2};
+	int nl = g_thorough ? 3 : 1;
+	/* base messages: what a client with the negotiated parameters sends first */
+	static const int base_msgs[3] = {5, 4, 3};
 	int nbase = g_thorough ? 3 : 1;
 	for (int li = 0; li < nl; li++) {
-		int level = levels[li];
+		int level = cor_cfg[li].level;
 		for (int b = 0; b < 3; b++) {
 			struct cdefl cd;
-			cd_init(&cd, 15, level == 1);
-			cd_msg(&cd, pl_data[base_msgs[b]], pl_len[base_msgs[b]], &g_base[level][base_msgs[b]], &g_base_len[level][base_msgs[b]]);
+			cd_init(&cd, cor_cfg[li].cb, cor_cfg[li].cn);
+			cd_msg(&cd, pl_data[base_msgs[b]], pl_len[base_msgs[b]], &g_base[li][base_msgs[b]], &g_base_len[li][base_msgs[b]]);
 			cd_end(&cd);
 		}
 		struct ccase c;
 		memset(&c, 0, sizeof(c));
 		c.sec = SEC_COR;
 		c.level = (uint8_t)level;
-		c.offer = g_plain_offer;
-		c.cb = 15;
-		c.sb = (int8_t)(level == 1 ? 9 : (level == 2 ? 12 : 15));
-		c.cn = c.sn = (int8_t)(level == 1);
+		c.ccfg = (uint8_t)li;
+		c.offer = add_offer(cor_cfg[li].offer);
+		c.cb = (int8_t)cor_cfg[li].cb;
+		c.sb = (int8_t)cor_cfg[li].sb;
+		c.cn = (int8_t)cor_cfg[li].cn;
+		c.sn = (int8_t)cor_cfg[li].sn;
 		c.acc = 1;
 		uint32_t rank = (uint32_t)li << 28;
 		int maxlen = g_thorough ? 2 : 1;
@@ -765,14 +781,14 @@ static void build_cor_cases(size_t *from, size_t *to)
 		}
 		for (int b = 0; b < nbase; b++) {
 			int m = base_msgs[b];
-			for (size_t pos = 0; pos < g_base_len[level][m]; pos++)
+			for (size_t pos = 0; pos < g_base_len[li][m]; pos++)
 				for (int val = 0; val < 256; val++) {
-					if (g_base[level][m][pos] == (uint8_t)val) continue;
+					if (g_base[li][m][pos] == (uint8_t)val) continue;
 					c.ckind = 1;
 					c.cmsg = (uint8_t)m;
 					c.cpos = (uint16_t)pos;
 					c.cval = (uint8_t)val;
-					c.clen = (uint16_t)g_base_len[level][m];
+					c.clen = (uint16_t)g_base_len[li][m];
 					c.csplit = -1;
 					c.rank = rank++;
 					push_case(&c);
@@ -852,6 +868,8 @@ static int do_replay(const char *path)
 			snprintf(key, sizeof(key), "%s", v);
 		else if (!strcmp(line, "payload"))
 			c.payload = (uint8_t)atoi(v);
+		else if (!strcmp(line, "payload_len") && c.payload < NPAY && (size_t)atoi(v) <= pl_len[c.payload])
+			pl_len[c.payload] = (size_t)atoi(v); /* debugging aid: use a prefix of the payload */
 		else if (!strcmp(line, "expect")) {
 			int a, b, d, e;
 			if (sscanf(v, "c%dn%ds%dn%d", &a, &b, &d, &e) == 4) c.cb = (int8_t)a, c.cn = (int8_t)b, c.sb = (int8_t)d, c.sn = (int8_t)e;
@@ -927,6 +945,7 @@ static void jstr(FILE *f, const char *s)
 struct secstat {
 	size_t from, to, run, held, viol, crash, nontriv, trans, hs;
 	int complete;
+	double secs;
 };
 
 static int vrec_better(const struct vrec *a, const struct vrec *b)
@@ -969,8 +988,15 @@ int main(int argc, char **argv)
 	double t0 = now_s();
 	if (deadline > 0) g_deadline_at = t0 + deadline;
 
+	{ /* parse the debug info once in the parent so that crashing workers symbolize from the inherited state */
+		char wb[256];
+		__sanitizer_symbolize_pc((void *)(uintptr_t)&run_case, "%f %s:%l", wb, sizeof(wb));
+		__sanitizer_symbolize_pc((void *)((uintptr_t)&memcpy + 4), "%f %s:%l", wb, sizeof(wb));  /* libasan */
+		__sanitizer_symbolize_pc((void *)((uintptr_t)&getpid + 4), "%f %s:%l", wb, sizeof(wb));  /* libc */
+	}
 	g_sh = shm(sizeof(*g_sh));
 	g_slots = shm(sizeof(*g_slots) * (size_t)g_jobs);
+	g_ctl = shm(sizeof(*g_ctl));
 	size_t res_cap = 1500000;
 	g_res = shm(sizeof(*g_res) * res_cap);
 
@@ -980,7 +1006,9 @@ int main(int argc, char **argv)
 	build_neg_cases();
 	ss[SEC_NEG].from = 0;
 	ss[SEC_NEG].to = g_ncases;
+	double tp = now_s();
 	ss[SEC_NEG].complete = run_phase(0, g_ncases, 64);
+	ss[SEC_NEG].secs = now_s() - tp;
 	/* (b) */
 	build_sets(ss[SEC_NEG].from, ss[SEC_NEG].to);
 	build_rt_cases(&ss[SEC_C2S].from, &ss[SEC_C2S].to, &ss[SEC_S2C].from, &ss[SEC_S2C].to);
@@ -989,9 +1017,15 @@ int main(int argc, char **argv)
 		fprintf(stderr, "c19: result table too small (%zu cases)\n", g_ncases);
 		return 2;
 	}
+	tp = now_s();
 	ss[SEC_C2S].complete = run_phase(ss[SEC_C2S].from, ss[SEC_C2S].to, 16);
+	ss[SEC_C2S].secs = now_s() - tp;
+	tp = now_s();
 	ss[SEC_S2C].complete = run_phase(ss[SEC_S2C].from, ss[SEC_S2C].to, 8);
+	ss[SEC_S2C].secs = now_s() - tp;
+	tp = now_s();
 	ss[SEC_COR].complete = run_phase(ss[SEC_COR].from, ss[SEC_COR].to, 1024);
+	ss[SEC_COR].secs = now_s() - tp;
 
 	size_t tot_trans = 0, tot_hs = 0, tot_nontriv = 0, tot_run = 0, max_peak_kb = 0, leaky = 0;
 	for (int s = 0; s < NSEC; s++)
@@ -1065,10 +1099,15 @@ int main(int argc, char **argv)
 	struct {
 		char key[400], msg[600], path[200];
 	} *rep = h_malloc(sizeof(*rep) * 21);
-	mkdir("/verif/replays", 0777);
+	const char *rdir = getenv("C19_REPLAY_DIR"); /* only for mutation experiments */
+	if (!rdir) rdir = "/verif/replays";
+	mkdir(rdir, 0777);
 	for (size_t i = 0; i < nsel; i++) {
 		snprintf(rep[i].key, sizeof(rep[i].key), "%s", sel[i]->key);
-		snprintf(rep[i].msg, sizeof(rep[i].msg), "%s", sel[i]->msg);
+		size_t same = 0;
+		for (uint32_t q = 0; q < nv; q++)
+			if (!strcmp(g_sh->v[q].key, sel[i]->key)) same++;
+		snprintf(rep[i].msg, sizeof(rep[i].msg), "%s [%zu case(s) (levels / parameter sets) with this key; this is the minimal one]", sel[i]->msg, same);
 		size_t idx = sel[i]->idx;
 		for (int t = 0; t < 2; t++) {
 			char k2[400], m2[600];
@@ -1078,7 +1117,7 @@ int main(int argc, char **argv)
 				return 2;
 			}
 		}
-		snprintf(rep[i].path, sizeof(rep[i].path), "/verif/replays/C19-%012llx.txt", (unsigned long long)(fnv(rep[i].key) & 0xffffffffffffull));
+		snprintf(rep[i].path, sizeof(rep[i].path), "%s/C19-%012llx.txt", rdir, (unsigned long long)(fnv(rep[i].key) & 0xffffffffffffull));
 		write_replay(rep[i].path, idx, rep[i].key, rep[i].msg);
 	}
 
@@ -1121,11 +1160,11 @@ int main(int argc, char **argv)
 	        "transitions = messages pushed through the real websocket/compression module (both directions); evaluations = transitions + upgrade handshakes checked; "
 	        "distinct_nontrivial = cases in which permessage-deflate was negotiated by the real negotiation code and at least one message was inflated or deflated by the module. "
 	        "Enumeration: (a) levels {1,2,3} x every offer from the parameter product in every parameter order + malformed/duplicate/unknown/5+ parameter offers + all ordered pairs of 13 offers in one header (', ' and ',') or two headers; "
-	        "(b) every accepted parameter set x 6 payloads x every fragmentation into <= 3 fragments with prefix sizes from {1,2,7,64} (+rest, rest may be empty) x 3 consecutive messages per connection; "
+	        "(b) every accepted parameter set x 7 payloads x every fragmentation into <= 3 fragments with prefix sizes from {1,2,7,64} (+rest, rest may be empty) x 3 consecutive messages per connection; "
 	        "(c) every compressed payload of the length bound (also as two fragments for length <= 1) and every single-byte substitution of valid compressed messages");
-	fprintf(f, ",\n  \"bounds\": {\"levels_negotiation\": [1,2,3], \"levels_roundtrip\": %s, \"window_bits_lattice\": %s, \"payloads\": [\"empty\",\"1byte\",\"noise100\",\"rep400\",\"mixed500\",\"wide5000\"], "
-	           "\"fragment_prefix_sizes\": [1,2,7,64], \"max_fragments\": 3, \"messages_per_connection\": %d, \"corrupt_levels\": %s, \"corrupt_max_len\": %d, \"corrupt_substitution_messages\": %s, \"corrupt_peak_limit_bytes\": %zu, \"offers\": %zu, \"accepted_parameter_sets\": %zu},\n",
-	        g_thorough ? "[2,1,3]" : "[2]", g_thorough ? "\"absent, valueless, 8..15\"" : "\"absent, valueless, 9,10,12,15\"", NMSG, g_thorough ? "[2,1]" : "[2]", g_thorough ? 2 : 1, g_thorough ? "[\"mixed500\",\"rep400\",\"noise100\"]" : "[\"mixed500\"]", COR_PEAK_LIMIT,
+	fprintf(f, ",\n  \"bounds\": {\"levels_negotiation\": [1,2,3], \"levels_roundtrip\": %s, \"window_bits_lattice\": %s, \"payloads\": [\"empty\",\"1byte\",\"tiny4\",\"noise100\",\"rep400\",\"mixed500\",\"wide5000\"], "
+	           "\"fragment_prefix_sizes\": [1,2,7,64], \"max_fragments\": 3, \"messages_per_connection\": %d, \"corrupt_configs\": %s, \"corrupt_max_len\": %d, \"corrupt_substitution_messages\": %s, \"corrupt_peak_limit_bytes\": %zu, \"offers\": %zu, \"accepted_parameter_sets\": %zu},\n",
+	        g_thorough ? "[2,1,3]" : "[2]", g_thorough ? "\"absent, valueless, 8..15\"" : "\"absent, valueless, 9,10,12,15\"", NMSG, g_thorough ? "[\"L2 permessage-deflate\",\"L1 permessage-deflate\",\"L3 permessage-deflate; client_max_window_bits=8\"]" : "[\"L2 permessage-deflate\"]", g_thorough ? 2 : 1, g_thorough ? "[\"mixed500\",\"rep400\",\"noise100\"]" : "[\"mixed500\"]", COR_PEAK_LIMIT,
 	        (ss[SEC_NEG].to - ss[SEC_NEG].from) / 3, g_nsets);
 	fprintf(f, "  \"caps_hit\": [");
 	int first = 1;
@@ -1133,8 +1172,8 @@ int main(int argc, char **argv)
 	if (total_v > VLOG_CAP) fprintf(f, "%s\"violation log capped at %d records (%zu violating cases)\"", first ? "" : ", ", VLOG_CAP, total_v), first = 0;
 	fprintf(f, "],\n  \"sections\": [\n");
 	for (int s = 0; s < NSEC; s++)
-		fprintf(f, "    {\"name\": \"%s\", \"cases\": %zu, \"run\": %zu, \"held\": %zu, \"oracle_violations\": %zu, \"crashes\": %zu, \"states\": %zu, \"messages\": %zu, \"nontrivial\": %zu, \"exhaustive\": %s}%s\n", sec_name[s], ss[s].to - ss[s].from, ss[s].run, ss[s].held,
-		        ss[s].viol, ss[s].crash, ss[s].to - ss[s].from, ss[s].trans, ss[s].nontriv, ss[s].complete ? "true" : "false", s + 1 < NSEC ? "," : "");
+		fprintf(f, "    {\"name\": \"%s\", \"cases\": %zu, \"run\": %zu, \"held\": %zu, \"oracle_violations\": %zu, \"crashes\": %zu, \"states\": %zu, \"messages\": %zu, \"nontrivial\": %zu, \"seconds\": %.1f, \"exhaustive\": %s}%s\n", sec_name[s], ss[s].to - ss[s].from, ss[s].run, ss[s].held,
+		        ss[s].viol, ss[s].crash, ss[s].to - ss[s].from, ss[s].trans, ss[s].nontriv, ss[s].secs, ss[s].complete ? "true" : "false", s + 1 < NSEC ? "," : "");
 	fprintf(f, "  ],\n  \"observations\": {\"negotiation_accepted\": %zu, \"negotiation_declined\": %zu, \"accepted_although_rfc7692_says_must_decline\": %zu, \"examples\": [", accepted, declined, acc_invalid);
 	for (size_t i = 0; i < acc_invalid && i < 3; i++) {
 		if (i) fputs(", ", f);
@@ -1175,7 +1214,7 @@ int main(int argc, char **argv)
 	fprintf(f, ",\n    ");
 	jstr(f, "Payload wide5000 exceeds CONFIG_MAX_MESSAGE_SIZE (512) of the default build; the websocket module itself has no such limit. Memory bound for corrupt input: peak additional allocation below 8 MB for compressed inputs of at most ~520 bytes; ASan leak checking is off (leaks are only counted in observations).");
 	fprintf(f, ",\n    ");
-	jstr(f, "memcpy/memmove with a NULL pointer and length 0 (empty frames) is reported by UBSan's nonnull-attribute check and therefore counted as a sanitizer report.");
+	jstr(f, "Built with -fno-sanitize=nonnull-attribute: zlib 1.2.11 itself (trees.c:873, every sync flush) and compression.c call memcpy(dst, NULL, 0); that is treated as benign and not reported.");
 	fprintf(f, "\n  ],\n  \"violation_cases_total\": %zu,\n  \"violation_keys_total\": %zu,\n  \"violation_classes\": [\n", total_v, nu);
 	for (size_t k = 0; k < ncl; k++) {
 		fprintf(f, "    {\"class\": ");
